@@ -107,6 +107,13 @@ pub trait Prop: Sync + Send {
     fn preludes(&self, _sc: &Self::Sc) -> Vec<Self::Sc> {
         vec![]
     }
+    /// Variants of a failing scenario to try when it does not reproduce in a fresh process because
+    /// its failure in the batch depended on what other worker threads were doing at the time
+    /// (e.g. `tracing` keeps a process-wide callsite-interest cache: while any thread has a
+    /// subscriber, span fields are evaluated on all threads).
+    fn repro_variants(&self, _sc: &Self::Sc) -> Vec<Self::Sc> {
+        vec![]
+    }
     /// does a known-findings `match` object apply to this minimised scenario?
     fn matches_finding(&self, _sc: &Self::Sc, _m: &Value) -> bool {
         true
@@ -526,13 +533,25 @@ pub fn run_batch<P: Prop>(p: &P, opts: &Opts) -> i32 {
         let path = replay_dir.join(fname);
         // confirm in a fresh process; if that fails, the failure may need earlier activity in
         // the same process (library state shared between connections): try the preludes
-        let mut candidates: Vec<Option<Value>> = vec![None];
+        // (scenario, prelude) candidates: as found; variants of it; then with each prelude
+        let mut candidates: Vec<(Value, Option<Value>)> = vec![(serde_json::to_value(&min_sc).unwrap(), None)];
+        for var in p.repro_variants(&min_sc) {
+            candidates.push((serde_json::to_value(&var).unwrap(), None));
+        }
         for pre in p.preludes(&min_sc) {
-            candidates.push(Some(serde_json::to_value(&pre).unwrap()));
+            candidates.push((serde_json::to_value(&min_sc).unwrap(), Some(serde_json::to_value(&pre).unwrap())));
         }
         let mut confirmed = false;
-        for cand in candidates {
-            rf.prelude = cand;
+        for (k, (scv, pre)) in candidates.into_iter().enumerate() {
+            rf.scenario = scv;
+            rf.prelude = pre;
+            if k > 0 {
+                // the trace shown must belong to the scenario recorded
+                if let Ok(v) = serde_json::from_value::<P::Sc>(rf.scenario.clone()) {
+                    rf.trace = p.trace(&v);
+                    rf.trace_hash = p.execute(&v).trace_hash;
+                }
+            }
             std::fs::write(&path, serde_json::to_string_pretty(&rf).unwrap()).expect("write replay");
             confirmed = match std::process::Command::new(std::env::current_exe().unwrap())
                 .arg(p.id())
@@ -547,6 +566,8 @@ pub fn run_batch<P: Prop>(p: &P, opts: &Opts) -> i32 {
             if confirmed {
                 if rf.prelude.is_some() {
                     println!("note: the violation below reproduces in a fresh process only after the recorded prelude scenario: the library keeps process-wide state across connections");
+                } else if k > 0 {
+                    println!("note: the violation below was found in a run whose outcome depended on other worker threads; the replay file records the variant of the scenario that reproduces on its own");
                 }
                 break;
             }
